@@ -6,8 +6,7 @@ import XalanModel.C01.CoreSpec
 (`execOne`, `execSeq`, `execChoose`, `forNodes`, `applyNodes`) to the four of the Core recursive specification
 (`inst`, `instKids`, `instNodes`, `instTmpls`) run with `oracleOf` — every oracle answer is `Spec.eval` /
 `chooseTemplateIdx` itself.  The Core fuel is existential (`inst_mono` joins the fuels of sub-derivations).
-`transform_eq_instRun` is the top level.  Fragment: literal text, value-of, literal result elements without
-attributes, if, choose, for-each (no sort), apply-templates (no sort / params), call-template (no params), and the
+`transform_eq_instRun` is the top level.  Fragment: literal text, value-of, literal result elements with attribute value templates (no `xsl:attribute`, no `use-attribute-sets`), if, choose, for-each (no sort), apply-templates (no sort / params), call-template (no params), and the
 built-in rules; no variables, keys, strip-space or global variables.
 -/
 namespace XalanModel.C01.CoreSpec
